@@ -245,6 +245,32 @@ def effectiveSwapUtil (A : Arith) (S : Sys) : List Level → Res Int
         if !l.parentOpen then .unavailable
         else bnd (effectiveSwapUtil A S rest) fun pu => .ok (max pu (A.ratio su sm))
 
+/-! ### a consumer that dereferenced without a check: `KillSwapUsage::getSwapExcess` (KillSwapUsage-inl.h)
+
+`memory_protection()` and `swap_usage()` are independent accessors; the biased swap excess is computed for every candidate the
+kill loop logs, also for candidates restored after a prekill hook (not re-ranked on the resuming tick, so nothing has cached
+their swap usage).  After the `fix:` commit an unavailable swap usage counts as 0; before it `.value()` threw
+`std::bad_optional_access` through `Oomd::run`. -/
+
+def swapExcess (ratio : Int → Int) (prot usage : Res Int) : Res Int :=
+  match prot with
+  | .ok p => bnd (valueOr usage 0) fun u => .ok (max (u - ratio p) 0)
+  | .unavailable => valueOr usage 0
+  | .throws => .throws
+  | .ub => .ub
+
+def swapExcessUnfixed (ratio : Int → Int) (prot usage : Res Int) : Res Int :=
+  match prot with
+  | .ok p =>
+    match usage with
+    | .ok u => .ok (max (u - ratio p) 0)
+    | .unavailable => .throws                 -- std::optional::value() on nullopt
+    | .throws => .throws
+    | .ub => .ub
+  | .unavailable => valueOr usage 0
+  | .throws => .throws
+  | .ub => .ub
+
 /-! ### the accessors the plugins call, as one table (used by the driver and by the theorems) -/
 
 inductive Acc
